@@ -235,6 +235,31 @@ class SymDec:
             n, d = -n, -d
         return SymDec(n, d)._ctx()
 
+    def __mod__(self, o):
+        """Decimal remainder: x - y * trunc(x / y) (sign of the dividend), divisor concrete"""
+        o = self._other(o)
+        if not o.is_concrete():
+            raise Unsupported("remainder by a symbolic decimal")
+        if o.N == 0:
+            raise _d.InvalidOperation("x % 0")
+        n, d = self.N * o.D, self.D * o.N
+        if d < 0:
+            n, d = -n, -d
+        q = round_int(n, d, _d.ROUND_DOWN)  # truncation toward zero
+        return (self - SymDec(q, 1) * o)
+
+    def __rmod__(self, o):
+        return self._other(o) % self
+
+    def __floordiv__(self, o):
+        o = self._other(o)
+        if not o.is_concrete():
+            raise Unsupported("division by a symbolic decimal")
+        n, d = self.N * o.D, self.D * o.N
+        if d < 0:
+            n, d = -n, -d
+        return SymDec(round_int(n, d, _d.ROUND_DOWN), 1)
+
     def __neg__(self):
         return SymDec(-self.N, self.D)
 
